@@ -22,9 +22,10 @@ var Registry = map[string]Entry{}
 func register(id string, e Entry) { Registry[id] = e }
 
 func init() {
+	register("C19", Entry{New: C19, Quick: Budget{4000000, 40}, Thorough: Budget{80000000, 1500}})
 	register("C16", Entry{New: func(map[string]bool) kit.Engine { return C16() }, Quick: Budget{400000, 40}, Thorough: Budget{60000000, 1500}})
 	register("C15", Entry{New: func(map[string]bool) kit.Engine { return C15() }, Quick: Budget{60000, 40}, Thorough: Budget{20000000, 1500}})
 	register("C10", Entry{New: func(map[string]bool) kit.Engine { return C10() }, Quick: Budget{300000, 40}, Thorough: Budget{40000000, 1500}})
 	register("C20", Entry{New: C20, Quick: Budget{300000, 50}, Thorough: Budget{40000000, 1500}})
-	register("C09", Entry{New: func(map[string]bool) kit.Engine { return C09() }, Quick: Budget{400000, 40}, Thorough: Budget{60000000, 1500}})
+	register("C09", Entry{New: func(map[string]bool) kit.Engine { return C09() }, Quick: Budget{1500000, 40}, Thorough: Budget{60000000, 1500}})
 }
